@@ -202,17 +202,20 @@ theorem cleanup_safe_except_gap (t : Timeouts) (now tReal : Nat) (ct : AMap Key 
 
 /-! ### Packets interleaved inside the scan's iteration -/
 
-/-- justification of a removal w.r.t. the map `ct` of the visit that judged it. -/
+/-- justification of a removal w.r.t. the map `ct` of the visit that judged it (same shape as `Removal`:
+every expiry is under the protocol of the entry's own key or of the forward key that points at it). -/
 def RemovalI (gap : Bool) (t : Timeouts) (now : Nat) (ct cur : AMap Key Entry) (x : Key) (e : Entry) : Prop :=
   (ct.get x = some e ∧                                   -- untouched since that visit, and …
-    ( (e.typ ≠ .fwd ∧ expired t now x.proto e = true)    -- … itself idle past its timeout when judged
-    ∨ (∃ kf : Key, expired t now kf.proto e = true)     -- … the reverse entry of a queued pair, judged idle
-                                                         --   (under its own or its forward key's protocol)
+    ( (e.typ ≠ .fwd ∧ expired t now x.proto e = true)    -- … itself idle past ITS timeout when judged
+    ∨ (∃ kf f, ct.get kf = some f ∧ f.typ = .fwd ∧ f.revKey = x ∧ expired t now kf.proto e = true)
+                                                         -- … a reverse entry judged through its forward entry
     ∨ (e.typ = .fwd ∧ ct.get e.revKey = none)            -- … a forward entry whose reverse entry was gone
     ∨ (gap = true ∧ GapCase t now ct x e)))              -- the known finding
-  ∨ (∃ r p, ct.get e.revKey = some r ∧ expired t now p r = true ∧ cur.get e.revKey = some r)
-                                                         -- forward entry of a pair whose reverse entry was judged
-                                                         -- idle and is still untouched
+  ∨ (∃ r, ct.get e.revKey = some r ∧
+        (expired t now x.proto r = true ∨ (r.typ ≠ .fwd ∧ expired t now e.revKey.proto r = true)) ∧
+        cur.get e.revKey = some r)                       -- forward entry of a pair whose reverse entry was judged
+                                                         -- idle (under the forward key's or its own protocol)
+                                                         -- and is still untouched
 
 theorem clean_step_safeI_partial (t : Timeouts) (now tReal : Nat) (ct cur : AMap Key Entry) (kq : Key × QVal)
     (hs : QSoundI t now ct kq)
@@ -258,14 +261,15 @@ theorem clean_step_safeI_partial (t : Timeouts) (now tReal : Nat) (ct cur : AMap
     rcases hwhich with hxo | ⟨hxk, hrev⟩
     · subst hxo
       rw [hg] at hr1; cases hr1
-      refine Or.inl ⟨hr, Or.inr (Or.inl ?_)⟩
-      rcases hre with h | h
-      · exact ⟨kq.1, h⟩
-      · exact ⟨kq.2.other, h⟩
+      refine Or.inl ⟨hr, ?_⟩
+      rcases hre with ⟨ht, h⟩ | ⟨f, hf, hft, hfr, h⟩
+      · exact Or.inl ⟨ht, h⟩
+      · exact Or.inr (Or.inl ⟨kq.1, f, hf, hft, hfr, h⟩)
     · subst hxk
-      rcases hre with h | h
-      · exact Or.inr ⟨r1, _, by rw [hrev]; exact hr, h, by rw [hrev]; exact hr1⟩
-      · exact Or.inr ⟨r1, _, by rw [hrev]; exact hr, h, by rw [hrev]; exact hr1⟩
+      refine Or.inr ⟨r1, by rw [hrev]; exact hr, ?_, by rw [hrev]; exact hr1⟩
+      rcases hre with ⟨ht, h⟩ | ⟨f, _, _, _, h⟩
+      · exact Or.inr ⟨ht, by rw [hrev]; exact h⟩
+      · exact Or.inl h
 
 /-- **Safety with packets interleaved inside the scan's iteration** (partial: the gap of the known
 finding).  `cur0` is the map when the cleaner starts; each visit's map is related to it by arbitrary
@@ -282,9 +286,32 @@ theorem interleaved_scan_safe_partial (t : Timeouts) (now : Nat) (visits : List 
   obtain ⟨τ, hold, htr⟩ := hclock v hv
   have h := clean_step_safeI_partial t now τ v.1 ct1 kq hs hold (hproto v hv) (traffic_of_sub htr hsub) x e hg hstep
   refine ⟨v, hv, ?_⟩
-  rcases h with h | ⟨r, p, h1, h2, h3⟩
+  rcases h with h | ⟨r, h1, h2, h3⟩
   · exact Or.inl h
-  · exact Or.inr ⟨r, p, h1, h2, hsub _ _ h3⟩
+  · exact Or.inr ⟨r, h1, h2, hsub _ _ h3⟩
+
+theorem traffic_weaken {τ T : Nat} {a b : AMap Key Entry} (h : τ ≤ T) (ht : Traffic T a b) : Traffic τ a b := by
+  intro k e' he
+  rcases ht k e' he with h1 | h1
+  · exact Or.inl h1
+  · exact Or.inr (by omega)
+
+/-- **Safety with BOTH kinds of interleaving** (partial: the gap of the known finding): packets between
+the visits of the scan's iteration (each visit at a clock value `τ ≤ T`), then packets before the cleaner
+pass and between any two of its atomic steps, in any order (`CleanRun T cur0 …`: every later packet
+writes a time stamp later than `T`, the clock when the scan ended). -/
+theorem combined_interleaved_safe_partial (t : Timeouts) (now T : Nat) (visits : List Visit) (ok : VisitsOK visits)
+    (cur0 : AMap Key Entry)
+    (hclock : ∀ v ∈ visits, ∃ τ, τ ≤ T ∧ (∀ k e, v.1.get k = some e → e.lastSeen ≤ τ) ∧ Traffic τ v.1 cur0)
+    (hproto : ∀ v ∈ visits, ∀ k e, v.1.get k = some e → k.proto ≠ 0)
+    (queue : AMap Key QVal) (hq : ∀ kq ∈ queue, kq ∈ scanI t now visits)
+    {cur : AMap Key Entry} (run : CleanRun T cur0 queue cur) (kq : Key × QVal) (hm : kq ∈ queue)
+    (x : Key) (e : Entry) (hg : cur.get x = some e) (hd : (cleanEntry cur kq.1 kq.2).get x = none) :
+    ∃ v ∈ visits, RemovalI true t now v.1 cur x e := by
+  obtain ⟨v, hv, hs⟩ := scanI_queue_sound t now visits ok kq (hq kq hm)
+  obtain ⟨τ, hle, hold, htr⟩ := hclock v hv
+  have htr' : Traffic τ v.1 cur := traffic_trans htr (traffic_weaken hle run.traffic_from)
+  exact ⟨v, hv, clean_step_safeI_partial t now τ v.1 cur kq hs hold (hproto v hv) htr' x e hg hd⟩
 
 /-- the composition for a whole scan. -/
 theorem scan_then_clean_safe_partial (t : Timeouts) (now tReal : Nat) (ct ct' : AMap Key Entry)
